@@ -2,6 +2,8 @@
 
 The postconditions of `Operation::parse` are generated from OPS below, a table written from DWARF 5 section 2.5 /
 7.7.1 (plus the GNU and WebAssembly extensions gimli documents): opcode -> operand layout -> decoded operation.
+[C07:decode-total] (one clause per encoded size, generated from the same table): an operation whose operands all have a fixed
+size decodes successfully whenever its bytes are present (no spurious rejection); B-op-eval builds its step totality on it.
 """
 from lib import *
 from batches import core
@@ -157,6 +159,14 @@ def parse_clauses():
     out.append('[C07:decode-WASM_location-invalid] old(bytes).rv().len > 1 && old(bytes).rv().at(0) == constants::DW_OP_WASM_location.0 && old(bytes).rv().at(1) > 3 ==> res is Err')
     known = ' || '.join(opcode_cond(n) for n, _, _, _ in OPS) + ' || b0.at(0) == constants::DW_OP_WASM_location.0'
     out.append(f'[C07:decode-unknown-opcode] old(bytes).rv().len > 0 ==> ({{ let b0 = old(bytes).rv(); !({known}) ==> res is Err }})')
+    # totality on the fixed-size part of the table: an operation whose operands all have a fixed size decodes whenever its
+    # bytes are there (no spurious rejection); one clause per encoded size, generated from OPS
+    by_size = {}
+    for names, kinds, _, _ in OPS:
+        if all(k in FIXED for k in kinds):
+            by_size.setdefault(1 + sum(FIXED[k] for k in kinds), []).append(opcode_cond(names))
+    for size in sorted(by_size):
+        out.append(f'[C07:decode-total] ({{ let b0 = old(bytes).rv(); b0.len >= {size} && ({" || ".join(by_size[size])}) ==> res is Ok }})')
     out.append('[C01:frame] within(old(bytes).rv(), final(bytes).rv())')
     out.append('[C01:progress] res is Ok ==> final(bytes).rv().len < old(bytes).rv().len')
     return out
